@@ -13,6 +13,7 @@ type Ticker struct {
 	Stopped bool
 	Owner   string // task that created it
 	Fired   int
+	F       func() // AfterFunc: run as a new task when the harness fires the timer
 	id      int
 }
 
@@ -46,6 +47,12 @@ func (t *Ticker) Fire() bool {
 	e := cur()
 	if e == nil || t.Stopped || (t.OneShot && t.Fired > 0) {
 		return false
+	}
+	if t.F != nil {
+		e.now += int64(t.D)
+		t.Fired++
+		GoNamed(fmt.Sprintf("afterfunc#%d", t.id), t.F)
+		return true
 	}
 	cs := e.chans[chanKey(t.C)]
 	if cs == nil {
